@@ -85,16 +85,130 @@ impl Set {
     }
 }
 
+/// Aggregate verification key (Concatenation) as a composite value: Merkle root, number of leaves,
+/// total stake.  Built through the public json-hex codec.
+#[derive(Clone, Debug, PartialEq)]
+struct Avk {
+    root: Vec<u8>,
+    nr: u64,
+    total: u64,
+}
+impl Avk {
+    fn fake(i: usize) -> Avk {
+        let text = fake_keys::aggregate_verification_key_for_concatenation()[i];
+        let v: serde_json::Value = serde_json::from_slice(&hex::decode(text).expect("fake avk hex")).expect("fake avk json");
+        Avk {
+            root: v["mt_commitment"]["root"].as_array().expect("root").iter().map(|b| b.as_u64().unwrap() as u8).collect(),
+            nr: v["mt_commitment"]["nr_leaves"].as_u64().expect("nr_leaves"),
+            total: v["total_stake"].as_u64().expect("total_stake"),
+        }
+    }
+    fn text(&self) -> String {
+        let root: Vec<String> = self.root.iter().map(|b| b.to_string()).collect();
+        hex::encode(format!(
+            "{{\"mt_commitment\":{{\"root\":[{}],\"nr_leaves\":{},\"hasher\":null}},\"total_stake\":{}}}",
+            root.join(","),
+            self.nr,
+            self.total
+        ))
+    }
+    fn coq(&self) -> String {
+        format!("(avk_of {} {} {})", hxb(&self.root), self.nr, self.total)
+    }
+}
+
+/// Genesis (Ed25519) signature: one of the fake signatures, optionally with one byte replaced.
+#[derive(Clone, Debug, PartialEq)]
+struct GSig {
+    base: usize,
+    edit: Option<(usize, u8)>,
+}
+impl GSig {
+    fn bytes(&self) -> Vec<u8> {
+        let mut b = hex::decode(fake_keys::genesis_signature()[self.base]).expect("fake genesis signature hex");
+        if let Some((p, v)) = self.edit {
+            b[p] = v;
+        }
+        b
+    }
+    fn text(&self) -> String {
+        hex::encode(self.bytes())
+    }
+    /// identity of the signature value in the model (distinct values <-> distinct ids)
+    fn id(&self) -> u64 {
+        self.base as u64 * 100_000 + self.edit.map(|(p, v)| 1 + p as u64 * 256 + v as u64).unwrap_or(0)
+    }
+    fn usable(&self) -> bool {
+        let unchanged = match self.edit { Some((p, v)) => GSig { base: self.base, edit: None }.bytes()[p] == v, None => false };
+        !unchanged && mithril_common::crypto_helper::GenesisEd25519Signature::try_from(self.text()).is_ok()
+    }
+}
+
+/// STM multi-signature: one of the fake ones, optionally with one component edited in its JSON form.
+const MSIG_EDITS: u8 = 9;
+#[derive(Clone, PartialEq)]
+struct MSig {
+    base: usize,
+    edit: u8,
+}
+impl std::fmt::Debug for MSig {
+    fn fmt(&self, f: &mut std::fmt::Formatter<'_>) -> std::fmt::Result {
+        write!(f, "MSig(fake {}, edit {}: {})", self.base, self.edit, self.edit_name())
+    }
+}
+impl MSig {
+    fn edit_name(&self) -> &'static str {
+        ["none", "first index +1", "last index of the second signature dropped", "signer_index", "registered stake",
+         "batch proof index", "signatures swapped", "second signature dropped", "batch proof value added", "an index +2^32"][self.edit as usize]
+    }
+    fn text(&self) -> String {
+        let text = fake_keys::multi_signature()[self.base];
+        if self.edit == 0 {
+            return text.to_string();
+        }
+        let mut v: serde_json::Value = serde_json::from_slice(&hex::decode(text).expect("fake multi sig hex")).expect("fake multi sig json");
+        {
+            use serde_json::json;
+            match self.edit {
+                1 => { let x = v["signatures"][0][0]["indexes"][0].as_u64().unwrap(); v["signatures"][0][0]["indexes"][0] = json!(x + 1); }
+                2 => { v["signatures"][1][0]["indexes"].as_array_mut().unwrap().pop(); }
+                3 => { let x = v["signatures"][0][0]["signer_index"].as_u64().unwrap(); v["signatures"][0][0]["signer_index"] = json!(x + 2); }
+                4 => { let x = v["signatures"][1][1][1].as_u64().unwrap(); v["signatures"][1][1][1] = json!(x + 1); }
+                5 => { let x = v["batch_proof"]["indices"][0].as_u64().unwrap(); v["batch_proof"]["indices"][0] = json!(x + 5); }
+                6 => { v["signatures"].as_array_mut().unwrap().swap(0, 1); }
+                7 => { v["signatures"].as_array_mut().unwrap().pop(); }
+                8 => { v["batch_proof"]["values"].as_array_mut().unwrap().push(json!(vec![7u8; 32])); }
+                _ => { let x = v["signatures"][1][0]["indexes"][3].as_u64().unwrap(); v["signatures"][1][0]["indexes"][3] = json!(x + (1u64 << 32)); }
+            }
+        }
+        hex::encode(serde_json::to_string(&v).unwrap())
+    }
+    fn id(&self) -> u64 {
+        self.base as u64 * 100 + self.edit as u64
+    }
+    fn decoded(&self) -> Option<String> {
+        let k: mithril_common::crypto_helper::ProtocolMultiSignature = self.text().try_into().ok()?;
+        k.to_json_hex().ok()
+    }
+    /// decodes, and to a value different from the unedited one
+    fn usable(&self) -> bool {
+        match (self.decoded(), MSig { base: self.base, edit: 0 }.decoded()) {
+            (Some(a), Some(b)) => self.edit == 0 || a != b,
+            _ => false,
+        }
+    }
+}
+
 #[derive(Clone, Debug, PartialEq)]
 enum Sig {
-    Genesis(usize),
-    Multi(Set, usize),
+    Genesis(GSig),
+    Multi(Set, MSig),
 }
 impl Sig {
     fn coq(&self) -> String {
         match self {
-            Sig::Genesis(i) => format!("(GenesisSig (Junk {}))", i),
-            Sig::Multi(t, i) => format!("(MultiSig {} (MS {}))", t.coq(), i),
+            Sig::Genesis(g) => format!("(GenesisSig (Junk {}))", g.id()),
+            Sig::Multi(t, m) => format!("(MultiSig {} (MS {}))", t.coq(), m.id()),
         }
     }
 }
@@ -106,6 +220,10 @@ fn ts_real(t: Ts) -> DateTime<Utc> {
 }
 fn ts_total(t: Ts) -> i128 {
     t.0 as i128 * 1_000_000_000 + t.1 as i128
+}
+/// non-leap representation of a total number of nanoseconds
+fn ts_of_total(n: i128) -> Ts {
+    (n.div_euclid(1_000_000_000) as i64, n.rem_euclid(1_000_000_000) as u32)
 }
 fn ts_in_i64(t: Ts) -> bool {
     let n = ts_total(t);
@@ -131,7 +249,7 @@ struct MCert {
     meta: MMeta,
     pm: BTreeMap<usize, String>,
     signed: String,
-    avk: usize,
+    avk: Avk,
     sig: Sig,
 }
 
@@ -149,12 +267,42 @@ enum Mut {
     Signers(Vec<(String, u64)>),
     Pm(BTreeMap<usize, String>),
     Signed(String),
-    Avk(usize),
+    Avk(Avk),
     Sig(Sig),
 }
 
+/// a byte string as a term of type `list N`: C04.Model.bs (length, big-endian value as one hexadecimal
+/// numeral) — one numeral is several times cheaper for coqc to read than a list of byte numerals
+fn hxb(b: &[u8]) -> String {
+    if b.is_empty() { "[]".to_string() } else { format!("(bs {}%nat 0x{})", b.len(), hex::encode(b)) }
+}
+/// let-bind every byte-string literal that occurs more than once in a model term (a batch repeats the
+/// base's strings in most variants): `let x0 := (bs …) in … x0 … x0 …`
+fn share(term: String) -> String {
+    let mut counts: Vec<(String, usize)> = vec![];
+    let mut i = 0;
+    while let Some(p) = term[i..].find("(bs ") {
+        let start = i + p;
+        let end = start + term[start..].find(')').expect("closing parenthesis") + 1;
+        let tok = &term[start..end];
+        match counts.iter_mut().find(|(t, _)| t == tok) {
+            Some(c) => c.1 += 1,
+            None => counts.push((tok.to_string(), 1)),
+        }
+        i = end;
+    }
+    let mut out = term.clone();
+    let mut prefix = String::new();
+    for (n, (tok, c)) in counts.iter().filter(|(t, c)| *c >= 2 && t.len() > 24).enumerate() {
+        let _ = c;
+        let name = format!("xs{}_", n);
+        out = out.replace(tok.as_str(), &name);
+        prefix.push_str(&format!("let {} := {} in ", name, tok));
+    }
+    format!("{}{}", prefix, out)
+}
 fn lit(s: &str) -> String {
-    format!("(BLit {})", coq::bytes(s.as_bytes()))
+    format!("(BLit {})", hxb(s.as_bytes()))
 }
 fn dyadic(x: f64) -> Option<(i128, i128)> {
     if !x.is_finite() {
@@ -171,7 +319,7 @@ fn phi_coq(x: f64) -> String {
     format!("({}, {})%Z", m, e)
 }
 fn signers_coq(s: &[(String, u64)]) -> String {
-    coq::list(&s.iter().map(|(p, st)| format!("({}, {})", coq::bytes(p.as_bytes()), st)).collect::<Vec<_>>())
+    coq::list(&s.iter().map(|(p, st)| format!("({}, {})", hxb(p.as_bytes()), st)).collect::<Vec<_>>())
 }
 fn pm_coq(pm: &BTreeMap<usize, String>) -> String {
     coq::list(&pm.iter().map(|(k, v)| format!("({}%nat, {})", k, lit(v))).collect::<Vec<_>>())
@@ -180,8 +328,8 @@ impl MMeta {
     fn coq(&self) -> String {
         format!(
             "(mk_meta {} {} {} {} {} ({})%Z ({})%Z {})",
-            coq::bytes(self.network.as_bytes()),
-            coq::bytes(self.version.as_bytes()),
+            hxb(self.network.as_bytes()),
+            hxb(self.version.as_bytes()),
             self.k,
             self.m,
             phi_coq(self.phi),
@@ -214,25 +362,21 @@ fn pm_real(pm: &BTreeMap<usize, String>) -> ProtocolMessage {
 impl MCert {
     fn coq(&self) -> String {
         format!(
-            "(mk_cert {} {} {} {} {} {} (BLit [{}]) {})",
+            "(mk_cert {} {} {} {} {} {} {} {})",
             lit(&self.hash),
             lit(&self.prev),
             self.epoch,
             self.meta.coq(),
             pm_coq(&self.pm),
             lit(&self.signed),
-            self.avk,
+            self.avk.coq(),
             self.sig.coq()
         )
     }
     fn real(&self) -> Certificate {
         let signature = match &self.sig {
-            Sig::Genesis(i) => {
-                CertificateSignature::GenesisSignature(fake_keys::genesis_signature()[*i].try_into().unwrap())
-            }
-            Sig::Multi(t, i) => {
-                CertificateSignature::MultiSignature(t.real(), fake_keys::multi_signature()[*i].try_into().unwrap())
-            }
+            Sig::Genesis(g) => CertificateSignature::GenesisSignature(g.text().try_into().expect("genesis signature decodes")),
+            Sig::Multi(t, m) => CertificateSignature::MultiSignature(t.real(), m.text().try_into().expect("multi-signature decodes")),
         };
         Certificate {
             hash: self.hash.clone(),
@@ -241,9 +385,7 @@ impl MCert {
             metadata: self.meta.real(),
             protocol_message: pm_real(&self.pm),
             signed_message: self.signed.clone(),
-            aggregate_verification_key: fake_keys::aggregate_verification_key_for_concatenation()[self.avk]
-                .try_into()
-                .unwrap(),
+            aggregate_verification_key: self.avk.text().try_into().expect("aggregate verification key decodes"),
             ancillary_prover_data: None,
             ancillary_verifier_data: None,
             signature,
@@ -275,8 +417,8 @@ impl Mut {
         match self {
             Mut::Prev(s) => format!("MPrev {}", lit(s)),
             Mut::Epoch(e) => format!("MEpoch {}", e),
-            Mut::Network(s) => format!("MNetwork {}", coq::bytes(s.as_bytes())),
-            Mut::Version(s) => format!("MVersion {}", coq::bytes(s.as_bytes())),
+            Mut::Network(s) => format!("MNetwork {}", hxb(s.as_bytes())),
+            Mut::Version(s) => format!("MVersion {}", hxb(s.as_bytes())),
             Mut::K(n) => format!("MK {}", n),
             Mut::M(n) => format!("MM {}", n),
             Mut::Phi(p) => format!("MPhi {}", phi_coq(*p)),
@@ -285,7 +427,7 @@ impl Mut {
             Mut::Signers(s) => format!("MSignersOf {}", signers_coq(s)),
             Mut::Pm(p) => format!("MPmOf {}", pm_coq(p)),
             Mut::Signed(s) => format!("MSigned {}", lit(s)),
-            Mut::Avk(a) => format!("MAvk (BLit [{}])", a),
+            Mut::Avk(a) => format!("MAvk {}", a.coq()),
             Mut::Sig(s) => format!("MSig {}", s.coq()),
         }
     }
@@ -328,21 +470,22 @@ fn rand_hexstr(rng: &mut Rng, n: usize) -> String {
     hex::encode(rng.bytes(n))
 }
 fn rand_word(rng: &mut Rng) -> String {
-    let words = ["devnet", "preview", "mainnet", "pre-release-preview", "testing-sanchonet", "dev", "net", "0.1.0", "x", ""];
+    let words = ["devnet", "preview", "mainnet", "pre-release-preview", "testing-sanchonet", "dev", "net", "0.1.0", "x", "", "Main Net", " padded ", "tab\there", "quote\"back\\slash/", "nul\0byte", "0.2.0-rc.1+Build"];
     (*rng.pick(&words)).to_string()
 }
 fn rand_u64(rng: &mut Rng) -> u64 {
-    match rng.below(6) {
+    match rng.below(7) {
         0 => rng.below(10),
         1 => rng.below(100_000),
         2 => u64::MAX - rng.below(3),
         3 => 1u64 << rng.below(64),
         4 => (1u64 << 63) - 1 + rng.below(3),
+        5 => (1u64 << 32) - 1 + rng.below(3),
         _ => rng.next(),
     }
 }
 fn rand_ts(rng: &mut Rng) -> Ts {
-    match rng.below(8) {
+    match rng.below(9) {
         0 => (1_136_214_245, 0),
         1 => (1_700_000_000 + rng.below(10_000_000) as i64, rng.below(1_000_000_000) as u32),
         2 => (rng.below(4_000_000_000) as i64, [1u32, 999_999_999, 500_000_000, 123][rng.below(4) as usize]),
@@ -351,6 +494,8 @@ fn rand_ts(rng: &mut Rng) -> Ts {
         4 => (9_223_372_036, 854_775_807 - rng.below(3) as u32),
         5 => (-9_223_372_037, 145_224_192 + rng.below(3) as u32),
         6 => (0, rng.below(3) as u32),
+        // a leap second (23:59:60.x): chrono carries it as nanoseconds >= 10^9 on second 59
+        7 => (60 * (rng.below(30_000_000) as i64) + 59, 1_000_000_000 + rng.below(1_000_000_000) as u32),
         _ => (rng.below(2_000_000_000) as i64, 0),
     }
 }
@@ -385,18 +530,31 @@ fn rand_set(rng: &mut Rng) -> Set {
         _ => Set::Cbtx(e, rand_u64(rng), rand_u64(rng)),
     }
 }
+/// signer lists as the type allows them: any order, party ids repeated, zero stakes, empty ids
 fn rand_signers(rng: &mut Rng) -> Vec<(String, u64)> {
-    let n = rng.below(5);
-    (0..n)
+    let n = rng.below(7);
+    let mut v: Vec<(String, u64)> = (0..n)
         .map(|i| {
-            let pid = match rng.below(3) {
+            let pid = match rng.below(4) {
                 0 => format!("pool1{}", rand_hexstr(rng, 4)),
                 1 => format!("{}", i),
+                2 => rand_word(rng),
                 _ => rand_hexstr(rng, 28),
             };
-            (pid, rand_u64(rng))
+            (pid, if rng.chance(1, 8) { 0 } else { rand_u64(rng) })
         })
-        .collect()
+        .collect();
+    if v.len() >= 2 && rng.chance(1, 3) {
+        // a repeated entry: exact copy, or the same party id with another stake
+        let i = rng.below(v.len() as u64) as usize;
+        let mut e = v[i].clone();
+        if rng.coin() {
+            e.1 = rand_u64(rng);
+        }
+        let at = rng.below(v.len() as u64 + 1) as usize;
+        v.insert(at, e);
+    }
+    v
 }
 /// honest protocol message: hex digests, decimal numbers, hex-encoded keys
 fn rand_pm(rng: &mut Rng, all_keys: bool) -> BTreeMap<usize, String> {
@@ -406,20 +564,38 @@ fn rand_pm(rng: &mut Rng, all_keys: bool) -> BTreeMap<usize, String> {
             let v = match k {
                 5 | 6 | 7 | 8 => format!("{}", rand_u64(rng)),
                 3 | 11 => { let n = rng.range(0, 40) as usize; rand_hexstr(rng, n) }
-                _ => rand_hexstr(rng, 32),
+                _ => if rng.chance(1, 10) { String::new() } else { rand_hexstr(rng, 32) },
             };
             m.insert(k, v);
         }
     }
     m
 }
-fn rand_cert(rng: &mut Rng) -> MCert {
+fn rand_avk(rng: &mut Rng) -> Avk {
+    let mut a = Avk::fake(rng.below(3) as usize);
+    if rng.chance(1, 3) {
+        a.root = rng.bytes(32);
+    }
+    if rng.chance(1, 3) {
+        a.nr = rand_u64(rng);
+    }
+    if rng.chance(1, 3) {
+        a.total = rand_u64(rng);
+    }
+    a
+}
+fn rand_cert(rng: &mut Rng, genesis: Option<bool>) -> MCert {
     let all = rng.chance(1, 4);
     let pm = rand_pm(rng, all);
-    let sig = if rng.chance(1, 4) { Sig::Genesis(rng.below(2) as usize) } else { Sig::Multi(rand_set(rng), rng.below(2) as usize) };
+    let g = rng.chance(1, 4);
+    let sig = if genesis.unwrap_or(g) {
+        Sig::Genesis(GSig { base: rng.below(2) as usize, edit: None })
+    } else {
+        Sig::Multi(rand_set(rng), MSig { base: rng.below(2) as usize, edit: 0 })
+    };
     MCert {
         hash: "h".into(),
-        prev: if rng.chance(1, 5) { String::new() } else { rand_hexstr(rng, 32) },
+        prev: match rng.below(6) { 0 => String::new(), 1 => rand_hexstr(rng, 32).to_uppercase(), _ => rand_hexstr(rng, 32) },
         epoch: rand_u64(rng),
         meta: MMeta {
             network: rand_word(rng),
@@ -433,7 +609,7 @@ fn rand_cert(rng: &mut Rng) -> MCert {
         },
         signed: if rng.coin() { pm_real(&pm).compute_hash() } else { rand_hexstr(rng, 32) },
         pm,
-        avk: rng.below(3) as usize,
+        avk: rand_avk(rng),
         sig,
     }
 }
@@ -445,173 +621,168 @@ fn fixed_bits(x: f64) -> Option<u64> {
     if r.is_finite() && r >= 0.0 && r < 4_294_967_296.0 { Some(r as u64) } else { None }
 }
 
-fn different_u64(rng: &mut Rng, x: u64) -> u64 {
-    match rng.below(4) {
+/// Systematic families of edits of a 64-bit number: neighbours, a low bit, a bit a 32-bit truncation
+/// loses, the bit an i64 conversion / saturation touches, a carry into the high half, the byte order.
+const U64_KINDS: u64 = 8;
+fn u64_edit(kind: u64, rng: &mut Rng, x: u64) -> u64 {
+    match kind % U64_KINDS {
         0 => x.wrapping_add(1),
         1 => x.wrapping_sub(1),
-        2 => x ^ (1u64 << rng.below(64)),
+        2 => x ^ (1u64 << rng.below(32)),
+        3 => x ^ (1u64 << (32 + rng.below(31))),
+        4 => x ^ (1u64 << 63),
+        5 => x.wrapping_add(1u64 << 32),
+        6 => if x.swap_bytes() != x { x.swap_bytes() } else { x ^ 0xff00 },
         _ => {
             let y = rand_u64(rng);
             if y == x { x.wrapping_add(7) } else { y }
         }
     }
 }
-fn different_str(rng: &mut Rng, s: &str) -> String {
-    match rng.below(4) {
+fn different_u64(rng: &mut Rng, x: u64) -> u64 {
+    let k = rng.below(U64_KINDS);
+    u64_edit(k, rng, x)
+}
+/// Systematic families of edits of a string: content, length, letter case, surrounding white space,
+/// NUL, leading zero, emptied, doubled.  Always different from `s` (inputs are ASCII).
+const STR_KINDS: u64 = 12;
+fn str_edit(kind: u64, rng: &mut Rng, s: &str) -> String {
+    match kind % STR_KINDS {
         0 => format!("{}x", s),
-        1 if !s.is_empty() => s[..s.len() - 1].to_string(),
-        2 if !s.is_empty() => {
-            let mut b = s.as_bytes().to_vec();
-            let i = rng.below(b.len() as u64) as usize;
-            b[i] = if b[i] == b'a' { b'b' } else { b'a' };
-            String::from_utf8(b).unwrap_or_else(|_| format!("{}y", s))
+        1 => if s.is_empty() { "0".into() } else { s[..s.len() - 1].to_string() },
+        2 => {
+            if s.is_empty() {
+                "y".into()
+            } else {
+                let mut b = s.as_bytes().to_vec();
+                let i = rng.below(b.len() as u64) as usize;
+                b[i] = if b[i] == b'a' { b'b' } else { b'a' };
+                String::from_utf8(b).unwrap_or_else(|_| format!("{}y", s))
+            }
         }
-        _ => format!("z{}", s),
+        3 => format!("z{}", s),
+        4 => {
+            let letters: Vec<usize> = s.bytes().enumerate().filter(|(_, c)| c.is_ascii_alphabetic()).map(|(i, _)| i).collect();
+            if letters.is_empty() {
+                format!("{}A", s)
+            } else {
+                let mut b = s.as_bytes().to_vec();
+                let i = *rng.pick(&letters);
+                b[i] ^= 0x20;
+                String::from_utf8(b).unwrap()
+            }
+        }
+        5 => format!("{} ", s),
+        6 => format!(" {}", s),
+        7 => format!("{}\n", s),
+        8 => format!("{}\0", s),
+        9 => format!("0{}", s),
+        10 => if s.is_empty() { "00".into() } else { String::new() },
+        _ => if s.is_empty() { "ab".into() } else { format!("{}{}", s, s) },
     }
 }
-fn different_ts(rng: &mut Rng, t: Ts) -> Ts {
-    // sub-second and whole-second moves that stay inside chrono's range
-    let (s, n) = t;
-    match rng.below(4) {
-        0 => if n < 999_999_999 { (s, n + 1) } else { (s, n - 1) },
-        1 => if n > 0 { (s, n - 1) } else { (s, n + 1) },
-        2 => (s + 1, n),
-        _ => (s, (n + 500_000_000) % 1_000_000_000),
+/// Timestamp edits by a number of nanoseconds (result in non-leap representation).
+const TS_DELTAS: [i128; 10] = [1, -1, 1_000, -1_000, 1_000_000, -1_000_000_000, 1_000_000_000, 500_000_000, 60_000_000_000, 999];
+fn ts_edit(kind: u64, t: Ts) -> Ts {
+    ts_of_total(ts_total(t) + TS_DELTAS[(kind % TS_DELTAS.len() as u64) as usize])
+}
+fn ts_representable(t: Ts) -> bool {
+    DateTime::from_timestamp(t.0, t.1).is_some()
+}
+
+/// the byte stream `ProtocolMessage::compute_hash` is documented to digest: key name || value in key order
+fn pm_preimage(pm: &BTreeMap<usize, String>) -> Vec<u8> {
+    let mut v = vec![];
+    for (k, val) in pm {
+        v.extend_from_slice(KEYS[*k].to_string().as_bytes());
+        v.extend_from_slice(val.as_bytes());
+    }
+    v
+}
+fn is_honest_value(v: &str) -> bool {
+    v.bytes().all(|c| c.is_ascii_digit() || (b'a'..=b'f').contains(&c))
+}
+/// what the property says about two protocol messages: honest-grammar messages that differ must differ
+/// in digest; so must any two messages whose digested byte streams differ (SHA-256 has no known
+/// collision); messages outside the grammar with the same stream are not judged
+fn pm_expect(a: &BTreeMap<usize, String>, b: &BTreeMap<usize, String>) -> Expect {
+    if a == b {
+        Expect::Same
+    } else if pm_preimage(a) != pm_preimage(b) || (a.values().all(|v| is_honest_value(v)) && b.values().all(|v| is_honest_value(v))) {
+        Expect::Differ
+    } else {
+        Expect::Unjudged
     }
 }
 
-/// single-field variants of `base` (each with what the property expects), plus collision probes
-fn variants(rng: &mut Rng, base: &MCert) -> Vec<(Vec<Mut>, Expect, String)> {
+/// move the last decimal digit of `a` in front of `b`: the decimal renderings concatenate identically
+fn digit_shift(a: u64, b: u64) -> Option<(u64, u64)> {
+    let (sa, sb) = (a.to_string(), b.to_string());
+    if sa.len() < 2 || sa.ends_with('0') {
+        return None;
+    }
+    let a2: u64 = sa[..sa.len() - 1].parse().ok()?;
+    let b2: u64 = format!("{}{}", &sa[sa.len() - 1..], sb).parse().ok()?;
+    Some((a2, b2))
+}
+/// the numbers carried by a signed entity type, and the same variant over other numbers
+fn set_numbers(t: &Set) -> Vec<u64> {
+    match *t {
+        Set::Msd(e) | Set::Csd(e) => vec![e],
+        Set::Cdb(e, i) | Set::Ctx(e, i) => vec![e, i],
+        Set::Cbtx(e, b, o) => vec![e, b, o],
+    }
+}
+fn set_with(t: &Set, n: &[u64]) -> Set {
+    match t {
+        Set::Msd(_) => Set::Msd(n[0]),
+        Set::Csd(_) => Set::Csd(n[0]),
+        Set::Cdb(..) => Set::Cdb(n[0], n[1]),
+        Set::Ctx(..) => Set::Ctx(n[0], n[1]),
+        Set::Cbtx(..) => Set::Cbtx(n[0], n[1], n[2]),
+    }
+}
+/// edits of the numbers under the same variant: each position by a u64 family, exchanges, decimal
+/// digit moved across a boundary, sum-preserving shifts
+fn set_number_edits(rng: &mut Rng, t: &Set, round: u64) -> Vec<Set> {
+    let n = set_numbers(t);
+    let mut out = vec![];
+    for p in 0..n.len() {
+        for j in 0..2u64 {
+            let mut m = n.clone();
+            m[p] = u64_edit(round + p as u64 + 4 * j, rng, m[p]);
+            out.push(set_with(t, &m));
+        }
+    }
+    for p in 0..n.len().saturating_sub(1) {
+        let mut m = n.clone();
+        m.swap(p, p + 1);
+        out.push(set_with(t, &m));
+        if let Some((a, b)) = digit_shift(n[p], n[p + 1]) {
+            let mut m = n.clone();
+            m[p] = a;
+            m[p + 1] = b;
+            out.push(set_with(t, &m));
+        }
+        let mut m = n.clone();
+        m[p] = m[p].wrapping_add(1);
+        m[p + 1] = m[p + 1].wrapping_sub(1);
+        out.push(set_with(t, &m));
+        let mut m = n.clone();
+        m[p] = n[p] ^ 0x5a;
+        m[p + 1] = n[p + 1] ^ 0x5a;
+        out.push(set_with(t, &m));
+    }
+    out.retain(|x| x != t);
+    out
+}
+
+/// single-field variants of `base` (each with what the property expects), plus probes.
+/// `round` rotates the systematic edit families so that over the batches of a run every
+/// (field, family) pair occurs.
+fn variants(rng: &mut Rng, base: &MCert, round: u64) -> Vec<(Vec<Mut>, Expect, String)> {
     let mut v: Vec<(Vec<Mut>, Expect, String)> = vec![(vec![], Expect::Same, "identity".into())];
-    let mut one = |m: Mut, e: Expect| {
-        let n = m.name().to_string();
-        v.push((vec![m], e, n))
-    };
-    one(Mut::Prev(different_str(rng, &base.prev)), Expect::Differ);
-    one(Mut::Epoch(different_u64(rng, base.epoch)), Expect::Differ);
-    one(Mut::Epoch(different_u64(rng, base.epoch)), Expect::Differ);
-    one(Mut::Network(different_str(rng, &base.meta.network)), Expect::Differ);
-    one(Mut::Version(different_str(rng, &base.meta.version)), Expect::Differ);
-    one(Mut::K(different_u64(rng, base.meta.k)), Expect::Differ);
-    one(Mut::M(different_u64(rng, base.meta.m)), Expect::Differ);
-    // phi_f: judged at fixed-point precision
-    for _ in 0..3 {
-        let p = match rng.below(4) {
-            0 => base.meta.phi + 1.0 / 16_777_216.0,
-            1 => f64::from_bits(base.meta.phi.to_bits() + 1),
-            2 => base.meta.phi + 1.0 / 1_073_741_824.0,
-            _ => rand_phi(rng),
-        };
-        let e = match (fixed_bits(base.meta.phi), fixed_bits(p)) {
-            (Some(a), Some(b)) if a == b => Expect::Same,
-            (Some(_), Some(_)) => Expect::Differ,
-            _ => Expect::Unjudged,
-        };
-        one(Mut::Phi(p), e);
-    }
-    for which in 0..2 {
-        let t0 = if which == 0 { base.meta.init } else { base.meta.sealed };
-        for _ in 0..2 {
-            let t = different_ts(rng, t0);
-            let e = if ts_in_i64(t0) && ts_in_i64(t) { Expect::Differ } else { Expect::Unjudged };
-            one(if which == 0 { Mut::Init(t) } else { Mut::Sealed(t) }, e);
-        }
-    }
-    // timestamps outside i64 nanoseconds: outside the quantifier (both clamp to 0)
-    one(Mut::Init((20_000_000_000 + rng.below(1000) as i64, 5)), Expect::Unjudged);
-    one(Mut::Sealed((-20_000_000_000, 7)), Expect::Unjudged);
-    // signers: stake, party id, order, added, removed
-    {
-        let s = &base.meta.signers;
-        let mut s1 = s.clone();
-        if s1.is_empty() {
-            s1.push(("p".into(), 1));
-        } else {
-            let i = rng.below(s1.len() as u64) as usize;
-            s1[i].1 = different_u64(rng, s1[i].1);
-        }
-        one(Mut::Signers(s1), Expect::Differ);
-        let mut s2 = s.clone();
-        if s2.is_empty() {
-            s2.push(("q".into(), 0));
-        } else {
-            let i = rng.below(s2.len() as u64) as usize;
-            s2[i].0 = different_str(rng, &s2[i].0);
-        }
-        one(Mut::Signers(s2), Expect::Differ);
-        if s.len() >= 2 && s[0] != s[1] {
-            let mut s3 = s.clone();
-            s3.swap(0, 1);
-            one(Mut::Signers(s3), Expect::Differ);
-        }
-        let mut s4 = s.clone();
-        s4.push((rand_hexstr(rng, 3), rand_u64(rng)));
-        one(Mut::Signers(s4), Expect::Differ);
-        // party id / stake boundary inside one party: ("ab", s) vs ("a", s') never collide (fixed-width stake)
-    }
-    // protocol message (honest grammar): value edit, entry added, entry removed
-    {
-        let mut p1 = base.pm.clone();
-        if let Some(k) = p1.keys().cloned().nth(rng.below(p1.len().max(1) as u64) as usize) {
-            let old = p1[&k].clone();
-            let newv = if old.chars().all(|c| c.is_ascii_digit()) && !old.is_empty() {
-                format!("{}", different_u64(rng, old.parse::<u64>().unwrap_or(0)))
-            } else {
-                let mut x = rand_hexstr(rng, old.len() / 2);
-                if x == old { x.push_str("00") }
-                x
-            };
-            p1.insert(k, newv);
-            one(Mut::Pm(p1), Expect::Differ);
-        }
-        let mut p2 = base.pm.clone();
-        let missing: Vec<usize> = (0..KEYS.len()).filter(|k| !p2.contains_key(k)).collect();
-        if !missing.is_empty() {
-            p2.insert(*rng.pick(&missing), rand_hexstr(rng, 8));
-            one(Mut::Pm(p2), Expect::Differ);
-        }
-        let mut p3 = base.pm.clone();
-        if let Some(k) = p3.keys().cloned().next() {
-            p3.remove(&k);
-            one(Mut::Pm(p3), Expect::Differ);
-        }
-    }
-    one(Mut::Signed(different_str(rng, &base.signed)), Expect::Differ);
-    one(Mut::Avk((base.avk + 1 + rng.below(2) as usize) % 3), Expect::Differ);
-    // signature: value, kind, entity type (outside the known class)
-    match &base.sig {
-        Sig::Genesis(i) => {
-            one(Mut::Sig(Sig::Genesis(1 - i)), Expect::Differ);
-            one(Mut::Sig(Sig::Multi(rand_set(rng), 0)), Expect::Differ);
-        }
-        Sig::Multi(t, i) => {
-            one(Mut::Sig(Sig::Multi(t.clone(), 1 - i)), Expect::Differ);
-            one(Mut::Sig(Sig::Genesis(0)), Expect::Differ);
-            for _ in 0..3 {
-                let t2 = rand_set(rng);
-                let t2 = match (&t2, rng.below(3)) {
-                    // same numbers where the shapes allow, different variant outside the class
-                    (_, 0) => match t {
-                        Set::Msd(e) | Set::Csd(e) => Set::Cdb(*e, rand_u64(rng)),
-                        Set::Cdb(e, i) | Set::Ctx(e, i) => Set::Cbtx(*e, *i, rand_u64(rng)),
-                        Set::Cbtx(e, b, _) => Set::Ctx(*e, *b),
-                    },
-                    // one number changed under the same variant
-                    (_, 1) => match t {
-                        Set::Msd(e) => Set::Msd(different_u64(rng, *e)),
-                        Set::Csd(e) => Set::Csd(different_u64(rng, *e)),
-                        Set::Cdb(e, i) => Set::Cdb(*e, different_u64(rng, *i)),
-                        Set::Ctx(e, b) => Set::Ctx(different_u64(rng, *e), *b),
-                        Set::Cbtx(e, b, o) => Set::Cbtx(*e, *b, different_u64(rng, *o)),
-                    },
-                    _ => t2,
-                };
-                if &t2 != t && t.twin().as_ref() != Some(&t2) {
-                    one(Mut::Sig(Sig::Multi(t2, *i)), Expect::Differ);
-                }
-            }
-        }
-    }
+
     // ---- probes outside the single-field quantifier (model faithfulness only) ----
     // network / version boundary shift: same byte stream
     let nv = format!("{}{}", base.meta.network, base.meta.version);
@@ -629,6 +800,297 @@ fn variants(rng: &mut Rng, base: &MCert) -> Vec<(Vec<Mut>, Expect, String)> {
         Expect::Unjudged,
         "two fields".into(),
     ));
+    // the two timestamps exchanged
+    v.push((vec![Mut::Init(base.meta.sealed), Mut::Sealed(base.meta.init)], Expect::Unjudged, "timestamps exchanged".into()));
+    // timestamps outside i64 nanoseconds: outside the quantifier (both clamp to 0)
+    v.push((vec![Mut::Init((20_000_000_000 + rng.below(1000) as i64, 5))], Expect::Unjudged, "initiated_at out of range".into()));
+    v.push((vec![Mut::Sealed((-20_000_000_000, 7))], Expect::Unjudged, "sealed_at out of range".into()));
+    // a leap second and the first second of the next minute with the same fraction: two different
+    // chrono values (and RFC 3339 texts) with the same number of nanoseconds since the epoch
+    {
+        let s59 = 60 * (rng.below(30_000_000) as i64) + 59;
+        let f = rng.below(1_000_000_000) as u32;
+        v.push((vec![Mut::Sealed((s59, 1_000_000_000 + f))], Expect::Unjudged, "sealed_at leap second".into()));
+        v.push((vec![Mut::Sealed((s59 + 1, f))], Expect::Unjudged, "sealed_at leap second alias".into()));
+    }
+
+    let mut one = |m: Mut, e: Expect| {
+        let n = m.name().to_string();
+        v.push((vec![m], e, n))
+    };
+    // ---- strings: two edit families each, rotating ----
+    for j in 0..2u64 {
+        one(Mut::Prev(str_edit(round + 6 * j, rng, &base.prev)), Expect::Differ);
+        one(Mut::Network(str_edit(round + 1 + 6 * j, rng, &base.meta.network)), Expect::Differ);
+        one(Mut::Version(str_edit(round + 2 + 6 * j, rng, &base.meta.version)), Expect::Differ);
+        one(Mut::Signed(str_edit(round + 3 + 6 * j, rng, &base.signed)), Expect::Differ);
+    }
+    // ---- numbers: two edit families each, rotating ----
+    for j in 0..2u64 {
+        one(Mut::Epoch(u64_edit(round + 4 * j, rng, base.epoch)), Expect::Differ);
+        one(Mut::K(u64_edit(round + 1 + 4 * j, rng, base.meta.k)), Expect::Differ);
+        one(Mut::M(u64_edit(round + 2 + 4 * j, rng, base.meta.m)), Expect::Differ);
+    }
+    // phi_f: judged at fixed-point precision
+    for _ in 0..3 {
+        let p = match rng.below(4) {
+            0 => base.meta.phi + 1.0 / 16_777_216.0,
+            1 => f64::from_bits(base.meta.phi.to_bits() + 1),
+            2 => base.meta.phi + 1.0 / 1_073_741_824.0,
+            _ => rand_phi(rng),
+        };
+        let e = match (fixed_bits(base.meta.phi), fixed_bits(p)) {
+            (Some(a), Some(b)) if a == b => Expect::Same,
+            (Some(_), Some(_)) => Expect::Differ,
+            _ => Expect::Unjudged,
+        };
+        one(Mut::Phi(p), e);
+    }
+    // ---- timestamps: three nanosecond deltas each, rotating ----
+    for which in 0..2u64 {
+        let t0 = if which == 0 { base.meta.init } else { base.meta.sealed };
+        for j in 0..3u64 {
+            let t = ts_edit(round + which + 3 * j, t0);
+            if !ts_representable(t) {
+                continue;
+            }
+            let e = if ts_in_i64(t0) && ts_in_i64(t) { Expect::Differ } else { Expect::Unjudged };
+            one(if which == 0 { Mut::Init(t) } else { Mut::Sealed(t) }, e);
+        }
+    }
+    // ---- signers: the list is hashed as carried (order, repetitions, every entry) ----
+    {
+        let s = &base.meta.signers;
+        let mut lists: Vec<Vec<(String, u64)>> = vec![];
+        let mut s1 = s.clone();
+        if s1.is_empty() {
+            s1.push(("p".into(), 1));
+        } else {
+            let i = rng.below(s1.len() as u64) as usize;
+            s1[i].1 = u64_edit(round + 3, rng, s1[i].1);
+        }
+        lists.push(s1);
+        let mut s2 = s.clone();
+        if s2.is_empty() {
+            s2.push(("q".into(), 0));
+        } else {
+            let i = rng.below(s2.len() as u64) as usize;
+            s2[i].0 = str_edit(round + 4, rng, &s2[i].0);
+        }
+        lists.push(s2);
+        if s.len() >= 2 {
+            let mut x = s.clone();
+            x.swap(0, 1);
+            lists.push(x);
+            let mut x = s.clone();
+            x.swap(0, s.len() - 1);
+            lists.push(x);
+            let mut x = s.clone();
+            x.reverse();
+            lists.push(x);
+            let mut x = s.clone();
+            x.rotate_left(1);
+            lists.push(x);
+            let mut x = s.clone();
+            x.sort();
+            lists.push(x);
+            // stakes exchanged between two parties
+            let mut x = s.clone();
+            let (a, b) = (x[0].1, x[1].1);
+            x[0].1 = b;
+            x[1].1 = a;
+            lists.push(x);
+        }
+        let fresh = (rand_hexstr(rng, 3), rand_u64(rng));
+        let mut x = s.clone();
+        x.push(fresh.clone());
+        lists.push(x);
+        let mut x = s.clone();
+        x.insert(0, fresh);
+        lists.push(x);
+        let mut x = s.clone();
+        x.push((rand_hexstr(rng, 3), 0));
+        lists.push(x);
+        let mut x = s.clone();
+        x.push((String::new(), rand_u64(rng)));
+        lists.push(x);
+        if !s.is_empty() {
+            let i = rng.below(s.len() as u64) as usize;
+            // an exact copy of an entry: at the end, next to the original, at the front
+            let mut x = s.clone();
+            x.push(s[i].clone());
+            lists.push(x);
+            let mut x = s.clone();
+            x.insert(i, s[i].clone());
+            lists.push(x);
+            let mut x = s.clone();
+            x.insert(0, s[i].clone());
+            lists.push(x);
+            // the same party id with another stake: before (shadowed) and after (shadowing)
+            let other = (s[i].0.clone(), u64_edit(round + 5, rng, s[i].1));
+            let mut x = s.clone();
+            x.insert(0, other.clone());
+            lists.push(x);
+            let mut x = s.clone();
+            x.push(other);
+            lists.push(x);
+            // removals
+            let mut x = s.clone();
+            x.remove(0);
+            lists.push(x);
+            let mut x = s.clone();
+            x.pop();
+            lists.push(x);
+            let mut x = s.clone();
+            x.remove(s.len() / 2);
+            lists.push(x);
+            lists.push(vec![]);
+            let mut x = s.clone();
+            x.dedup();
+            lists.push(x);
+            let mut x = s.clone();
+            x.dedup_by(|a, b| a.0 == b.0);
+            lists.push(x);
+        }
+        let mut seen: Vec<Vec<(String, u64)>> = vec![];
+        for l in lists {
+            if &l != s && !seen.contains(&l) {
+                seen.push(l.clone());
+                one(Mut::Signers(l), Expect::Differ);
+            }
+        }
+    }
+    // ---- protocol message: value edits, entries added / removed / exchanged, empty values ----
+    {
+        let mut pms: Vec<BTreeMap<usize, String>> = vec![];
+        let keys: Vec<usize> = base.pm.keys().cloned().collect();
+        if !keys.is_empty() {
+            for j in 0..3u64 {
+                let k = keys[rng.below(keys.len() as u64) as usize];
+                let mut p = base.pm.clone();
+                let old = p[&k].clone();
+                let newv = match j {
+                    0 => {
+                        if old.chars().all(|c| c.is_ascii_digit()) && !old.is_empty() {
+                            format!("{}", different_u64(rng, old.parse::<u64>().unwrap_or(0)))
+                        } else {
+                            let mut x = rand_hexstr(rng, old.len() / 2);
+                            if x == old { x.push_str("00") }
+                            x
+                        }
+                    }
+                    _ => str_edit(round + 5 * j, rng, &old),
+                };
+                p.insert(k, newv);
+                pms.push(p);
+            }
+            // a value emptied (the entry stays) / the entry dropped
+            let k = keys[rng.below(keys.len() as u64) as usize];
+            let mut p = base.pm.clone();
+            p.insert(k, String::new());
+            pms.push(p);
+            let mut p = base.pm.clone();
+            p.remove(&k);
+            pms.push(p);
+            let mut p = base.pm.clone();
+            p.remove(&keys[0]);
+            pms.push(p);
+        }
+        if keys.len() >= 2 {
+            let mut p = base.pm.clone();
+            let (a, b) = (p[&keys[0]].clone(), p[&keys[1]].clone());
+            p.insert(keys[0], b);
+            p.insert(keys[1], a);
+            pms.push(p);
+        }
+        let missing: Vec<usize> = (0..KEYS.len()).filter(|k| !base.pm.contains_key(k)).collect();
+        if !missing.is_empty() {
+            let mut p = base.pm.clone();
+            p.insert(*rng.pick(&missing), rand_hexstr(rng, 8));
+            pms.push(p);
+            let mut p = base.pm.clone();
+            p.insert(*rng.pick(&missing), String::new());
+            pms.push(p);
+        }
+        for p in pms {
+            let e = pm_expect(&base.pm, &p);
+            if e != Expect::Same {
+                one(Mut::Pm(p), e);
+            }
+        }
+    }
+    // ---- aggregate verification key: every component ----
+    {
+        let a = &base.avk;
+        let mut x = Avk::fake((rng.below(3)) as usize);
+        if &x == a {
+            x.total = x.total.wrapping_add(1);
+        }
+        one(Mut::Avk(x), Expect::Differ);
+        for pos in [0usize, 31, rng.below(32) as usize] {
+            let mut x = a.clone();
+            x.root[pos] ^= 1u8 << rng.below(8);
+            one(Mut::Avk(x), Expect::Differ);
+        }
+        for j in 0..2u64 {
+            let mut x = a.clone();
+            x.nr = u64_edit(round + 4 * j, rng, x.nr);
+            one(Mut::Avk(x), Expect::Differ);
+            let mut x = a.clone();
+            x.total = u64_edit(round + 2 + 4 * j, rng, x.total);
+            one(Mut::Avk(x), Expect::Differ);
+        }
+        // number of leaves and total stake exchanged
+        if a.nr != a.total {
+            let mut x = a.clone();
+            x.nr = a.total;
+            x.total = a.nr;
+            one(Mut::Avk(x), Expect::Differ);
+        }
+    }
+    // ---- signature: value (component by component), kind, entity type (outside the known class) ----
+    match &base.sig {
+        Sig::Genesis(g) => {
+            one(Mut::Sig(Sig::Genesis(GSig { base: 1 - g.base, edit: None })), Expect::Differ);
+            for pos in [0usize, 31, 32, 63, rng.below(64) as usize] {
+                let old = g.bytes()[pos];
+                let x = GSig { base: g.base, edit: Some((pos, old ^ (1u8 << rng.below(8)))) };
+                if x.usable() {
+                    one(Mut::Sig(Sig::Genesis(x)), Expect::Differ);
+                }
+            }
+            one(Mut::Sig(Sig::Multi(rand_set(rng), MSig { base: 0, edit: 0 })), Expect::Differ);
+            one(Mut::Sig(Sig::Multi(Set::Msd(base.epoch), MSig { base: 1, edit: 0 })), Expect::Differ);
+        }
+        Sig::Multi(t, ms) => {
+            one(Mut::Sig(Sig::Multi(t.clone(), MSig { base: 1 - ms.base, edit: 0 })), Expect::Differ);
+            for e in 1..=MSIG_EDITS {
+                let x = MSig { base: ms.base, edit: e };
+                if x.usable() {
+                    one(Mut::Sig(Sig::Multi(t.clone(), x)), Expect::Differ);
+                }
+            }
+            one(Mut::Sig(Sig::Genesis(GSig { base: 0, edit: None })), Expect::Differ);
+            let mut sets: Vec<Set> = set_number_edits(rng, t, round);
+            // another variant over the same numbers where the shapes allow (outside the known class)
+            sets.push(match t {
+                Set::Msd(e) | Set::Csd(e) => Set::Cdb(*e, rand_u64(rng)),
+                Set::Cdb(e, i) | Set::Ctx(e, i) => Set::Cbtx(*e, *i, rand_u64(rng)),
+                Set::Cbtx(e, b, _) => Set::Ctx(*e, *b),
+            });
+            sets.push(match t {
+                Set::Msd(e) | Set::Csd(e) => Set::Ctx(*e, 0),
+                Set::Cdb(e, i) | Set::Ctx(e, i) => Set::Cbtx(*e, *i, 0),
+                Set::Cbtx(e, b, _) => Set::Cdb(*e, *b),
+            });
+            sets.push(rand_set(rng));
+            for t2 in sets {
+                if &t2 != t && t.twin().as_ref() != Some(&t2) {
+                    one(Mut::Sig(Sig::Multi(t2, ms.clone())), Expect::Differ);
+                }
+            }
+        }
+    }
     v
 }
 
@@ -686,11 +1148,37 @@ fn judge_batch(base: &Option<Result<String, ()>>, outs: &[(Option<Result<String,
 fn json_ws(rng: &mut Rng) -> &'static str {
     ["", "", " ", "\n", "  ", "\t", "\r\n "][rng.below(7) as usize]
 }
-fn json_string(s: &str) -> String {
-    serde_json::to_string(s).unwrap()
+/// a JSON string literal; now and then a character is written as a \uXXXX escape (and '/' as "\/")
+fn json_string(rng: &mut Rng, s: &str) -> String {
+    let mut out = String::from("\"");
+    for c in s.chars() {
+        if (c as u32) < 0x10000 && rng.chance(1, 24) {
+            out.push_str(&format!("\\u{:04x}", c as u32));
+        } else if c == '/' && rng.coin() {
+            out.push_str("\\/");
+        } else {
+            let q = serde_json::to_string(&c.to_string()).unwrap();
+            out.push_str(&q[1..q.len() - 1]);
+        }
+    }
+    out.push('"');
+    out
 }
-/// re-print a JSON value with shuffled object keys, random whitespace, alternative number text for
-/// floats (exponent notation, trailing zeros) and `+00:00` instead of `Z` in timestamps
+/// the same instant in another RFC 3339 spelling: +00:00, nine fraction digits, a whole-hour offset
+fn respell_timestamp(rng: &mut Rng, s: &str) -> String {
+    use chrono::{FixedOffset, SecondsFormat};
+    let Ok(dt) = DateTime::parse_from_rfc3339(s) else { return s.to_string() };
+    match rng.below(6) {
+        0 if s.ends_with('Z') => format!("{}+00:00", &s[..s.len() - 1]),
+        1 => dt.with_timezone(&Utc).to_rfc3339_opts(SecondsFormat::Nanos, true),
+        2 => dt.with_timezone(&FixedOffset::east_opt(2 * 3600).unwrap()).to_rfc3339_opts(SecondsFormat::Nanos, false),
+        3 => dt.with_timezone(&FixedOffset::west_opt(5 * 3600).unwrap()).to_rfc3339_opts(SecondsFormat::AutoSi, false),
+        _ => s.to_string(),
+    }
+}
+/// re-print a JSON value with shuffled object keys, random whitespace, escapes inside strings, alternative
+/// number text for floats (exponent notation, trailing zeros), other spellings of the timestamps, the
+/// default `hash_scheme` written out, absent optional fields written as null, unknown fields added
 fn perturb(rng: &mut Rng, v: &serde_json::Value, key: &str) -> String {
     use serde_json::Value as V;
     match v {
@@ -713,10 +1201,11 @@ fn perturb(rng: &mut Rng, v: &serde_json::Value, key: &str) -> String {
             }
         }
         V::String(s) => {
-            if (key == "initiated_at" || key == "sealed_at") && s.ends_with('Z') && rng.coin() {
-                json_string(&format!("{}+00:00", &s[..s.len() - 1]))
+            if key == "initiated_at" || key == "sealed_at" {
+                let t = respell_timestamp(rng, s);
+                json_string(rng, &t)
             } else {
-                json_string(s)
+                json_string(rng, s)
             }
         }
         V::Array(a) => {
@@ -724,15 +1213,93 @@ fn perturb(rng: &mut Rng, v: &serde_json::Value, key: &str) -> String {
             format!("[{}]", items.join(","))
         }
         V::Object(o) => {
+            let mut o = o.clone();
+            if key == "protocol_message" && !o.contains_key("hash_scheme") && rng.coin() {
+                o.insert("hash_scheme".into(), V::String("legacy".into()));
+            }
+            if key == "" && o.contains_key("signed_message") {
+                // top level of the certificate message
+                for opt in ["ancillary_prover_data", "ancillary_verifier_data"] {
+                    if !o.contains_key(opt) && rng.chance(1, 3) {
+                        o.insert(opt.into(), V::Null);
+                    }
+                }
+                if rng.chance(1, 3) {
+                    o.insert("x_future_field".into(), serde_json::json!([1, {"a": null}, "z"]));
+                }
+            }
+            if key == "metadata" && rng.chance(1, 3) {
+                o.insert("x_future_field".into(), serde_json::json!({"n": 1.5}));
+            }
             let mut keys: Vec<&String> = o.keys().collect();
             rng.shuffle(&mut keys);
             let items: Vec<String> = keys
                 .iter()
-                .map(|k| format!("{}{}{}:{}{}{}", json_ws(rng), json_string(k), json_ws(rng), json_ws(rng), perturb(rng, &o[*k], k), json_ws(rng)))
+                .map(|k| format!("{}{}{}:{}{}{}", json_ws(rng), json_string(rng, k), json_ws(rng), json_ws(rng), perturb(rng, &o[*k], k), json_ws(rng)))
                 .collect();
             format!("{{{}}}", items.join(","))
         }
     }
+}
+
+/// the values a certificate holds, printed as C04.Model.value_obs prints them
+fn value_obs(c: &Certificate) -> String {
+    let set = match c.signed_entity_type() {
+        SignedEntityType::MithrilStakeDistribution(e) => vec![0, *e],
+        SignedEntityType::CardanoStakeDistribution(e) => vec![1, *e],
+        SignedEntityType::CardanoDatabase(b) => vec![2, *b.epoch, b.immutable_file_number],
+        SignedEntityType::CardanoTransactions(e, b) => vec![3, *e, *b],
+        SignedEntityType::CardanoBlocksTransactions(e, b, o) => vec![4, *e, *b, *o],
+    };
+    let nanos = |t: &DateTime<Utc>| -> i128 {
+        let n = t.timestamp() as i128 * 1_000_000_000 + t.timestamp_subsec_nanos() as i128;
+        if n >= i64::MIN as i128 && n <= i64::MAX as i128 { n } else { 0 }
+    };
+    let p = c.metadata.protocol_parameters.clone();
+    let fixed = hc::catch(move || p.phi_f_fixed().to_bits() as u64);
+    let bytes = |s: &str| format!("(OLN {})", hxb(s.as_bytes()));
+    coq::ol(&[
+        coq::ob(c.is_genesis()),
+        coq::oln(&set),
+        coq::on(*c.epoch),
+        bytes(&c.metadata.network),
+        bytes(&c.metadata.protocol_version),
+        coq::on(c.metadata.protocol_parameters.k),
+        coq::on(c.metadata.protocol_parameters.m),
+        match fixed { Some(b) => coq::ores_ok(coq::on(b)), None => coq::ores_panic() },
+        coq::oz(nanos(&c.metadata.initiated_at)),
+        coq::oz(nanos(&c.metadata.sealed_at)),
+        coq::ol(&c.metadata.signers.iter().map(|s| coq::ol(&[bytes(&s.party_id), coq::on(s.stake)])).collect::<Vec<_>>()),
+    ])
+}
+/// field-by-field comparison of a certificate with the description it was built from (provenance);
+/// protocol parameters at fixed point.  Returns the first difference.
+fn differs_from(mc: &MCert, c: &Certificate) -> Option<String> {
+    let sig_text = |c: &Certificate| -> String {
+        match &c.signature {
+            CertificateSignature::GenesisSignature(s) => format!("genesis:{}", s.to_bytes_hex().unwrap_or_default()),
+            CertificateSignature::MultiSignature(t, s) => format!("multi:{:?}:{}", t, s.to_json_hex().unwrap_or_default()),
+        }
+    };
+    let orig = mc.real();
+    let checks: Vec<(&str, bool)> = vec![
+        ("hash", orig.hash == c.hash),
+        ("previous_hash", orig.previous_hash == c.previous_hash),
+        ("epoch", orig.epoch == c.epoch),
+        ("network", orig.metadata.network == c.metadata.network),
+        ("protocol_version", orig.metadata.protocol_version == c.metadata.protocol_version),
+        ("k", orig.metadata.protocol_parameters.k == c.metadata.protocol_parameters.k),
+        ("m", orig.metadata.protocol_parameters.m == c.metadata.protocol_parameters.m),
+        ("phi_f (fixed point)", fixed_bits(orig.metadata.protocol_parameters.phi_f) == fixed_bits(c.metadata.protocol_parameters.phi_f)),
+        ("initiated_at", orig.metadata.initiated_at == c.metadata.initiated_at),
+        ("sealed_at", orig.metadata.sealed_at == c.metadata.sealed_at),
+        ("signers", orig.metadata.signers == c.metadata.signers),
+        ("protocol_message", orig.protocol_message == c.protocol_message),
+        ("signed_message", orig.signed_message == c.signed_message),
+        ("aggregate_verification_key", orig.aggregate_verification_key.to_json_hex().ok() == c.aggregate_verification_key.to_json_hex().ok()),
+        ("signature / signed entity type", sig_text(&orig) == sig_text(c)),
+    ];
+    checks.iter().find(|(_, ok)| !ok).map(|(n, _)| n.to_string())
 }
 
 struct MapRetriever(HashMap<String, Certificate>);
@@ -743,20 +1310,18 @@ impl CertificateRetriever for MapRetriever {
     }
 }
 
-fn main() {
-    let args = hc::parse_args();
-    let mut rng = Rng::new(args.seed);
-    let mut sink = Sink::new(&args);
-    let (n_batches, n_set, n_pm, n_rt, n_chain_rt) = if args.thorough { (160, 40, 120, 400, 2) } else { (14, 6, 10, 40, 1) };
-
-    // ---- 1. certificate batches: single-field flips ----
-    for _ in 0..n_batches {
-        let mut r = rng.fork();
+/// emit one base with a list of variants as cases of at most `CHUNK` variants (the identity variant
+/// leads every case, so that every case holds the base hash)
+const CHUNK: usize = 24;
+fn emit_batches(sink: &mut Sink, kind: &str, base: &MCert, vs: &[(Vec<Mut>, Expect, String)], key_prefix: &str) {
+    let rest: Vec<&(Vec<Mut>, Expect, String)> = vs.iter().skip(1).collect();
+    let chunks: Vec<Vec<&(Vec<Mut>, Expect, String)>> = if rest.is_empty() { vec![vec![]] } else { rest.chunks(CHUNK).map(|c| c.to_vec()).collect() };
+    for (ci, chunk) in chunks.iter().enumerate() {
         let Some(id) = sink.wants() else { continue };
-        let base = rand_cert(&mut r);
-        let vs = variants(&mut r, &base);
-        let hb = cert_hash(&base);
-        let outs: Vec<(Option<Result<String, ()>>, Expect, String)> = vs
+        let mut part: Vec<&(Vec<Mut>, Expect, String)> = vec![&vs[0]];
+        part.extend(chunk.iter().cloned());
+        let hb = cert_hash(base);
+        let outs: Vec<(Option<Result<String, ()>>, Expect, String)> = part
             .iter()
             .map(|(ms, e, n)| {
                 let mut c = base.clone();
@@ -770,41 +1335,59 @@ fn main() {
         let model = format!(
             "run_batch {} {}",
             base.coq(),
-            coq::list(&vs.iter().map(|(ms, _, _)| coq::list(&ms.iter().map(|m| m.coq()).collect::<Vec<_>>())).collect::<Vec<_>>())
+            coq::list(&part.iter().map(|(ms, _, _)| coq::list(&ms.iter().map(|m| m.coq()).collect::<Vec<_>>())).collect::<Vec<_>>())
         );
         let n_differ = outs.iter().filter(|o| o.1 == Expect::Differ).count();
         sink.push(Case {
             id,
-            kind: format!("cert-single-field/{}", if matches!(base.sig, Sig::Genesis(_)) { "genesis" } else { "standard" }),
-            desc: serde_json::json!({"base": format!("{:?}", base), "variants": vs.iter().map(|(ms,e,n)| format!("{} {:?} {:?}", n, e, ms)).collect::<Vec<_>>()}),
-            model: Some(model),
+            kind: kind.to_string(),
+            desc: serde_json::json!({"base": format!("{:?}", base), "part": ci, "variants": part.iter().map(|(ms,e,n)| format!("{} {:?} {:?}", n, e, ms)).collect::<Vec<_>>()}),
+            model: Some(share(model)),
             impl_obs: hash_obs(&outs.iter().map(|o| o.0.clone()).collect::<Vec<_>>()),
             holds,
             why,
             known,
             nontrivial: n_differ >= 10 && matches!(hb, Some(Ok(_))),
-            key: format!("{:?}", base),
+            key: format!("{}{}/{:?}", key_prefix, ci, base),
         });
+    }
+}
+
+fn main() {
+    let args = hc::parse_args();
+    let mut rng = Rng::new(args.seed);
+    let mut sink = Sink::new(&args);
+    let (n_batches, n_set, n_ent, n_pm, n_rt, n_chain_rt) = if args.thorough { (96, 40, 40, 120, 400, 2) } else { (16, 6, 8, 12, 48, 1) };
+
+    // ---- 1. certificate batches: single-field edits, systematic families rotating with the batch number ----
+    for i in 0..n_batches {
+        let mut r = rng.fork();
+        // every fourth base is a genesis certificate
+        let base = rand_cert(&mut r, Some(i % 4 == 1));
+        let vs = variants(&mut r, &base, i as u64);
+        let kind = format!("cert-single-field/{}", if matches!(base.sig, Sig::Genesis(_)) { "genesis" } else { "standard" });
+        emit_batches(&mut sink, &kind, &base, &vs, "b");
     }
 
     // ---- 2. the known class: entity types sharing beacon numbers ----
     for i in 0..n_set {
         let mut r = rng.fork();
         let Some(id) = sink.wants() else { continue };
-        let mut base = rand_cert(&mut r);
+        let mut base = rand_cert(&mut r, Some(false));
         let t = loop {
             let t = rand_set(&mut r);
             if i % 3 == 2 || t.twin().is_some() { break t }
         };
-        base.sig = Sig::Multi(t.clone(), 0);
+        let ms0 = MSig { base: 0, edit: 0 };
+        base.sig = Sig::Multi(t.clone(), ms0.clone());
         let mut vs: Vec<(Vec<Mut>, Expect, String)> = vec![];
         match t.twin() {
-            Some(tw) => vs.push((vec![Mut::Sig(Sig::Multi(tw, 0))], Expect::KnownCollision, "signed_entity_type twin".into())),
+            Some(tw) => vs.push((vec![Mut::Sig(Sig::Multi(tw, ms0.clone()))], Expect::KnownCollision, "signed_entity_type twin".into())),
             None => {
                 // CardanoBlocksTransactions feeds its index: every other variant must differ
                 if let Set::Cbtx(e, b, _) = t {
-                    vs.push((vec![Mut::Sig(Sig::Multi(Set::Ctx(e, b), 0))], Expect::Differ, "signed_entity_type".into()));
-                    vs.push((vec![Mut::Sig(Sig::Multi(Set::Cdb(e, b), 0))], Expect::Differ, "signed_entity_type".into()));
+                    vs.push((vec![Mut::Sig(Sig::Multi(Set::Ctx(e, b), ms0.clone()))], Expect::Differ, "signed_entity_type".into()));
+                    vs.push((vec![Mut::Sig(Sig::Multi(Set::Cdb(e, b), ms0.clone()))], Expect::Differ, "signed_entity_type".into()));
                 }
             }
         }
@@ -819,7 +1402,7 @@ fn main() {
             id,
             kind: if t.twin().is_some() { "entity-type-twin".into() } else { "entity-type-cbtx".into() },
             desc: serde_json::json!({"base": format!("{:?}", base), "variants": vs.iter().map(|(ms,e,_)| format!("{:?} {:?}", e, ms)).collect::<Vec<_>>()}),
-            model: Some(format!("run_batch {} {}", base.coq(), coq::list(&variants_coq))),
+            model: Some(share(format!("run_batch {} {}", base.coq(), coq::list(&variants_coq)))),
             impl_obs: hash_obs(&all),
             holds,
             why,
@@ -829,77 +1412,142 @@ fn main() {
         });
     }
 
+    // ---- 2b. entity-type numbers next to each other: every variant in turn over small and large numbers,
+    //      each position edited alone, exchanged, a decimal digit moved across the boundary, sum kept ----
+    for i in 0..n_ent {
+        let mut r = rng.fork();
+        let mut base = rand_cert(&mut r, Some(false));
+        let small = |r: &mut Rng| if r.coin() { 11 + r.below(1_000_000) } else { rand_u64(r) };
+        let (a, b, c) = (small(&mut r), small(&mut r), small(&mut r));
+        let t = match i % 5 {
+            0 => Set::Ctx(a, b),
+            1 => Set::Cdb(a, b),
+            2 => Set::Cbtx(a, b, c),
+            3 => Set::Csd(a),
+            _ => Set::Msd(a),
+        };
+        let ms0 = MSig { base: (i % 2) as usize, edit: 0 };
+        base.sig = Sig::Multi(t.clone(), ms0.clone());
+        let mut vs: Vec<(Vec<Mut>, Expect, String)> = vec![(vec![], Expect::Same, "identity".into())];
+        for round in 0..4u64 {
+            for t2 in set_number_edits(&mut r, &t, i as u64 + 2 * round) {
+                if t.twin().as_ref() != Some(&t2) && !vs.iter().any(|(m, _, _)| matches!(m.first(), Some(Mut::Sig(Sig::Multi(x, _))) if x == &t2)) {
+                    vs.push((vec![Mut::Sig(Sig::Multi(t2, ms0.clone()))], Expect::Differ, "signed_entity_type numbers".into()));
+                }
+            }
+        }
+        // the epoch of the certificate and the epoch of the entity type are separate fields
+        vs.push((vec![Mut::Epoch(set_numbers(&t)[0])], if set_numbers(&t)[0] != base.epoch { Expect::Differ } else { Expect::Same }, "epoch".into()));
+        emit_batches(&mut sink, "entity-type-numbers", &base, &vs, "e");
+    }
+
     // ---- 3. protocol messages ----
     for i in 0..n_pm {
         let mut r = rng.fork();
         let Some(id) = sink.wants() else { continue };
         let base = rand_pm(&mut r, i % 3 == 0);
-        let mut ms: Vec<(BTreeMap<usize, String>, bool)> = vec![(base.clone(), true)]; // (message, honest grammar)
-        // honest single edits
-        for k in base.keys().cloned().collect::<Vec<_>>() {
+        let mut ms: Vec<BTreeMap<usize, String>> = vec![base.clone()];
+        let keys: Vec<usize> = base.keys().cloned().collect();
+        // single edits of every entry: honest value edit, any-byte edit (rotating family), emptied, dropped
+        for (ki, k) in keys.iter().enumerate() {
             let mut m = base.clone();
-            let old = m[&k].clone();
+            let old = m[k].clone();
             let newv = if !old.is_empty() && old.chars().all(|c| c.is_ascii_digit()) {
                 format!("{}", different_u64(&mut r, old.parse::<u64>().unwrap_or(1)))
             } else {
                 format!("{}{}", old, ["0", "a", "f", "00"][r.below(4) as usize])
             };
-            m.insert(k, newv);
-            ms.push((m, true));
+            m.insert(*k, newv);
+            ms.push(m);
             let mut m = base.clone();
-            m.remove(&k);
-            ms.push((m, true));
+            m.insert(*k, str_edit(i as u64 + ki as u64, &mut r, &old));
+            ms.push(m);
+            if !old.is_empty() {
+                let mut m = base.clone();
+                m.insert(*k, String::new());
+                ms.push(m);
+            }
+            let mut m = base.clone();
+            m.remove(k);
+            ms.push(m);
         }
-        // a value moved to another key
-        if let (Some(k), Some(free)) = (base.keys().next().cloned(), (0..KEYS.len()).find(|k| !base.contains_key(k))) {
+        // a value moved to another key; an empty value under a new key; two values exchanged
+        if let (Some(k), Some(free)) = (keys.first().cloned(), (0..KEYS.len()).find(|k| !base.contains_key(k))) {
             let mut m = base.clone();
             let v = m.remove(&k).unwrap();
             m.insert(free, v);
-            ms.push((m, true));
+            ms.push(m);
+            let mut m = base.clone();
+            m.insert(free, String::new());
+            ms.push(m);
+        }
+        if keys.len() >= 2 {
+            let j = r.below(keys.len() as u64 - 1) as usize;
+            let mut m = base.clone();
+            let (a, b) = (m[&keys[j]].clone(), m[&keys[j + 1]].clone());
+            m.insert(keys[j], b);
+            m.insert(keys[j + 1], a);
+            ms.push(m);
+        }
+        // a decimal number with a leading zero / a sign (same number, different text)
+        if let Some(k) = keys.iter().find(|k| (5..=8).contains(*k)) {
+            let mut m = base.clone();
+            m.insert(*k, format!("0{}", base[k]));
+            ms.push(m);
+            let mut m = base.clone();
+            m.insert(*k, format!("+{}", base[k]));
+            ms.push(m);
         }
         // outside the honest grammar: a value that swallows the next key and value (same bytes in
         // declaration order) — separates BTreeMap (enum) order from any other ordering
-        let ks: Vec<usize> = base.keys().cloned().collect();
-        if ks.len() >= 2 {
-            let j = r.below(ks.len() as u64 - 1) as usize;
+        if keys.len() >= 2 {
+            let j = r.below(keys.len() as u64 - 1) as usize;
             let mut m = base.clone();
-            let v2 = m.remove(&ks[j + 1]).unwrap();
-            let v1 = m[&ks[j]].clone();
-            m.insert(ks[j], format!("{}{}{}", v1, KEYS[ks[j + 1]], v2));
-            ms.push((m, false));
+            let v2 = m.remove(&keys[j + 1]).unwrap();
+            let v1 = m[&keys[j]].clone();
+            m.insert(keys[j], format!("{}{}{}", v1, KEYS[keys[j + 1]], v2));
+            ms.push(m);
         }
         {
             let mut m: BTreeMap<usize, String> = BTreeMap::new();
             m.insert(0, "aa".into());
             m.insert(5, "7".into());
-            ms.push((m, true));
+            ms.push(m);
             let mut m2: BTreeMap<usize, String> = BTreeMap::new();
             m2.insert(0, format!("aa{}7", KEYS[5]));
-            ms.push((m2, false));
+            ms.push(m2);
+            ms.push(BTreeMap::new());
+            let mut m3: BTreeMap<usize, String> = BTreeMap::new();
+            m3.insert(r.below(KEYS.len() as u64) as usize, String::new());
+            ms.push(m3);
         }
-        let hashes: Vec<String> = ms.iter().map(|(m, _)| pm_real(m).compute_hash()).collect();
-        // oracle: honest messages that differ must have different digests
+        let hashes: Vec<String> = ms.iter().map(|m| pm_real(m).compute_hash()).collect();
+        // oracle: messages that must differ (honest grammar, or different digested streams) have different
+        // digests; equal messages have equal digests
         let mut holds = true;
         let mut why = None;
         'o: for a in 0..ms.len() {
             for b in (a + 1)..ms.len() {
-                if ms[a].1 && ms[b].1 && ms[a].0 != ms[b].0 && hashes[a] == hashes[b] {
-                    holds = false;
-                    why = Some(format!("two different well-formed protocol messages have the same digest: {:?} / {:?}", ms[a].0, ms[b].0));
-                    break 'o;
-                }
-                if ms[a].0 == ms[b].0 && hashes[a] != hashes[b] {
-                    holds = false;
-                    why = Some("equal protocol messages with different digests".into());
-                    break 'o;
+                match pm_expect(&ms[a], &ms[b]) {
+                    Expect::Differ if hashes[a] == hashes[b] => {
+                        holds = false;
+                        why = Some(format!("two different protocol messages have the same digest: {:?} / {:?}", ms[a], ms[b]));
+                        break 'o;
+                    }
+                    Expect::Same if hashes[a] != hashes[b] => {
+                        holds = false;
+                        why = Some("equal protocol messages with different digests".into());
+                        break 'o;
+                    }
+                    _ => {}
                 }
             }
         }
         sink.push(Case {
             id,
             kind: "protocol-message".into(),
-            desc: serde_json::json!({"messages": ms.iter().map(|(m, h)| format!("{} {:?}", if *h {"honest"} else {"free"}, m)).collect::<Vec<_>>()}),
-            model: Some(format!("run_pm {}", coq::list(&ms.iter().map(|(m, _)| format!("(pmsg_of {})", pm_coq(m))).collect::<Vec<_>>()))),
+            desc: serde_json::json!({"messages": ms.iter().map(|m| format!("{} {:?}", if m.values().all(|v| is_honest_value(v)) {"honest"} else {"free"}, m)).collect::<Vec<_>>()}),
+            model: Some(share(format!("run_pm {}", coq::list(&ms.iter().map(|m| format!("(pmsg_of {})", pm_coq(m))).collect::<Vec<_>>())))),
             impl_obs: coq::oln(&pattern(&hashes)),
             holds: Some(holds),
             why,
@@ -988,50 +1636,97 @@ fn main() {
         });
     }
 
-    // ---- 5. wire round trip: Certificate -> CertificateMessage -> JSON text (perturbed) -> back ----
-    for _ in 0..n_rt {
+    // ---- 5. wire round trip: Certificate -> CertificateMessage (key / signature strings in either accepted
+    //      text form) -> JSON text (perturbed) -> back ----
+    for i in 0..n_rt {
         let mut r = rng.fork();
         let Some(id) = sink.wants() else { continue };
-        let mut mc = rand_cert(&mut r);
+        let mut mc = rand_cert(&mut r, Some(i % 4 == 1));
         // keep phi_f inside the fixed-point domain so that hashing is defined
         if fixed_bits(mc.meta.phi).is_none() {
             mc.meta.phi = 0.65;
         }
+        // multi-signatures with an edited component travel too
+        if let Sig::Multi(t, ms) = &mc.sig {
+            let x = MSig { base: ms.base, edit: (r.below(2 * (MSIG_EDITS as u64 + 1))) as u8 };
+            if x.edit <= MSIG_EDITS && x.usable() {
+                mc.sig = Sig::Multi(t.clone(), x);
+            }
+        }
+        // text form of the keys: 0 = as the conversion writes them, 1 = the other accepted form
+        let (alt_avk, alt_sig) = (r.chance(1, 3), r.chance(1, 3));
         let cert = mc.real();
         let mc2 = mc.clone();
-        let out = hc::catch(move || -> Result<(Vec<Option<Result<String, ()>>>, [String; 2], String), String> {
+        let out = hc::catch(move || -> Result<(Vec<Option<Result<String, ()>>>, Vec<[String; 2]>, String, Certificate), String> {
             let h0 = cert.try_compute_hash().map_err(|e| e.to_string())?;
-            let msg: CertificateMessage = cert.clone().try_into().map_err(|e: anyhow::Error| e.to_string())?;
+            let mut msg: CertificateMessage = cert.clone().try_into().map_err(|e: anyhow::Error| e.to_string())?;
+            if alt_avk {
+                msg.aggregate_verification_key = cert.aggregate_verification_key.to_bytes_hex().map_err(|e| e.to_string())?;
+            }
+            if alt_sig {
+                match &cert.signature {
+                    CertificateSignature::GenesisSignature(s) => msg.genesis_signature = s.to_json_hex().map_err(|e| e.to_string())?,
+                    CertificateSignature::MultiSignature(_, s) => msg.multi_signature = s.to_bytes_hex().map_err(|e| e.to_string())?,
+                }
+            }
             let value = serde_json::to_value(&msg).map_err(|e| e.to_string())?;
             let text = perturb(&mut r, &value, "");
             let msg2: CertificateMessage = serde_json::from_str(&text).map_err(|e| format!("{} in {}", e, text))?;
-            let cert2: Certificate = msg2.try_into().map_err(|e: anyhow::Error| e.to_string())?;
+            let cert2: Certificate = msg2.try_into().map_err(|e: anyhow::Error| format!("{:#}", e))?;
             let h1 = cert2.try_compute_hash().map_err(|e| e.to_string())?;
             Ok((
                 vec![Some(Ok(cert.hash.clone())), Some(Ok(h0)), Some(Ok(cert2.hash.clone())), Some(Ok(h1))],
-                [cert.signed_message.clone(), cert2.signed_message.clone()],
+                vec![
+                    [cert.signed_message.clone(), cert2.signed_message.clone()],
+                    [cert.previous_hash.clone(), cert2.previous_hash.clone()],
+                    [cert.protocol_message.compute_hash(), cert2.protocol_message.compute_hash()],
+                    [cert.aggregate_verification_key.to_json_hex().unwrap_or_default(), cert2.aggregate_verification_key.to_json_hex().unwrap_or_default()],
+                ],
                 text,
+                cert2,
             ))
         });
         let (obs, holds, why, text) = match &out {
-            Some(Ok((hs, sm, text))) => {
+            Some(Ok((hs, pairs, text, cert2))) => {
                 let same_hash = hs[1] == hs[3] && hs[0] == hs[2];
-                let same_sm = sm[0] == sm[1];
+                let same_sm = pairs[0][0] == pairs[0][1];
+                let diff = differs_from(&mc2, cert2);
                 (
-                    coq::ol(&[coq::ob(true), hash_obs(hs), coq::oln(&pattern(&sm.to_vec()))]),
-                    same_hash && same_sm,
-                    if !same_hash { Some("hash changed across certificate -> message -> JSON -> certificate".to_string()) } else if !same_sm { Some("signed message changed across the wire".to_string()) } else { None },
+                    coq::ol(&[
+                        coq::ob(true),
+                        hash_obs(hs),
+                        coq::ol(&pairs.iter().map(|p| coq::oln(&pattern(&p.to_vec()))).collect::<Vec<_>>()),
+                        value_obs(cert2),
+                    ]),
+                    same_hash && same_sm && diff.is_none(),
+                    if !same_hash {
+                        Some("hash changed across certificate -> message -> JSON -> certificate".to_string())
+                    } else if !same_sm {
+                        Some("signed message changed across the wire".to_string())
+                    } else {
+                        diff.map(|d| format!("field `{}` changed across certificate -> message -> JSON -> certificate", d))
+                    },
                     text.clone(),
                 )
             }
             Some(Err(e)) => (coq::ol(&[coq::ob(false)]), false, Some(format!("round trip failed: {}", e)), String::new()),
             None => (coq::ores_panic(), false, Some("round trip panicked".into()), String::new()),
         };
+        let enc = |alt: bool, canonical_json: bool| if alt == canonical_json { "BytesHex" } else { "JsonHex" };
         sink.push(Case {
             id,
-            kind: format!("wire-roundtrip/{}", if matches!(mc2.sig, Sig::Genesis(_)) { "genesis" } else { "standard" }),
-            desc: serde_json::json!({"certificate": format!("{:?}", mc2), "json": text}),
-            model: Some(format!("run_roundtrip {}", mc2.coq())),
+            kind: format!(
+                "wire-roundtrip/{}{}",
+                if matches!(mc2.sig, Sig::Genesis(_)) { "genesis" } else { "standard" },
+                if alt_avk || alt_sig { "/other-key-text" } else { "" }
+            ),
+            desc: serde_json::json!({"certificate": format!("{:?}", mc2), "avk_other_text_form": alt_avk, "signature_other_text_form": alt_sig, "json": text}),
+            model: Some(format!(
+                "run_roundtrip_enc {} {} {}",
+                mc2.coq(),
+                enc(alt_avk, true),
+                enc(alt_sig, !matches!(mc2.sig, Sig::Genesis(_)))
+            )),
             impl_obs: obs,
             holds: Some(holds),
             why,
@@ -1041,7 +1736,8 @@ fn main() {
         });
     }
 
-    // ---- 6. round trip of genuine chain certificates: verification outcome before / after ----
+    // ---- 6. round trip of genuine chain certificates, and of tampered copies of them: verification
+    //      outcome before / after ----
     let rt = tokio::runtime::Builder::new_current_thread().enable_all().build().unwrap();
     for _ in 0..n_chain_rt {
         let mut r = rng.fork();
@@ -1054,42 +1750,73 @@ fn main() {
             Arc::new(MapRetriever(map)),
             Arc::new(chain.genesis_verifier.clone()),
         );
-        for cert in chain.certificates_chained.iter() {
-            let mut r2 = r.fork();
-            let Some(id) = sink.wants() else { continue };
-            let before = rt.block_on(verifier.verify_certificate(cert)).is_ok();
-            let res: Result<(Certificate, String), String> = (|| {
-                let msg: CertificateMessage = cert.clone().try_into().map_err(|e: anyhow::Error| e.to_string())?;
-                let value = serde_json::to_value(&msg).map_err(|e| e.to_string())?;
-                let text = perturb(&mut r2, &value, "");
-                let msg2: CertificateMessage = serde_json::from_str(&text).map_err(|e| e.to_string())?;
-                Ok((msg2.try_into().map_err(|e: anyhow::Error| e.to_string())?, text))
-            })();
-            let (holds, why, obs) = match &res {
-                Ok((c2, _)) => {
-                    let after = rt.block_on(verifier.verify_certificate(c2)).is_ok();
-                    let h2 = c2.try_compute_hash().unwrap_or_default();
-                    let ok = before && after && h2 == cert.hash && c2.hash == cert.hash && c2.signed_message == cert.signed_message;
-                    (
-                        ok,
-                        if ok { None } else { Some(format!("verification before={} after={} hash {} -> {}", before, after, cert.hash, h2)) },
-                        coq::ol(&[coq::ob(before), coq::ob(after), coq::ob(h2 == cert.hash)]),
-                    )
-                }
-                Err(e) => (false, Some(format!("round trip failed: {}", e)), coq::ol(&[coq::ob(before)])),
-            };
-            sink.push(Case {
-                id,
-                kind: format!("wire-roundtrip-verify/{}", if cert.is_genesis() { "genesis" } else { "standard" }),
-                desc: serde_json::json!({"hash": cert.hash, "epoch": *cert.epoch, "json": res.as_ref().map(|x| x.1.clone()).unwrap_or_default()}),
-                model: None,
-                impl_obs: obs,
-                holds: Some(holds),
-                why,
-                known: None,
-                nontrivial: true,
-                key: cert.hash.clone(),
-            });
+        for genuine in chain.certificates_chained.iter() {
+            for tamper in 0..3u64 {
+                let mut r2 = r.fork();
+                let Some(id) = sink.wants() else { continue };
+                let mut cert = genuine.clone();
+                let what = match tamper {
+                    0 => "genuine",
+                    1 => {
+                        // one hashed field edited, hash field kept: verification must fail on both sides
+                        match r2.below(5) {
+                            0 => cert.epoch = Epoch(*cert.epoch + 1),
+                            1 => cert.metadata.sealed_at = cert.metadata.sealed_at + chrono::Duration::nanoseconds(1),
+                            2 => cert.metadata.network.push(' '),
+                            3 => { if cert.metadata.signers.len() >= 2 { cert.metadata.signers.swap(0, 1) } else { cert.metadata.signers.clear() } }
+                            _ => cert.previous_hash = cert.previous_hash.to_uppercase(),
+                        }
+                        "one field edited, hash kept"
+                    }
+                    _ => {
+                        // one field edited and the hash recomputed: the signature / chaining checks decide
+                        match r2.below(3) {
+                            0 => cert.signed_message = format!("{}0", cert.signed_message),
+                            1 => cert.metadata.protocol_parameters.k += 1,
+                            _ => cert.epoch = Epoch(*cert.epoch + 1),
+                        }
+                        cert.hash = cert.try_compute_hash().unwrap_or_default();
+                        "one field edited, hash recomputed"
+                    }
+                };
+                let before = rt.block_on(verifier.verify_certificate(&cert)).is_ok();
+                let res: Result<(Certificate, String), String> = (|| {
+                    let msg: CertificateMessage = cert.clone().try_into().map_err(|e: anyhow::Error| e.to_string())?;
+                    let value = serde_json::to_value(&msg).map_err(|e| e.to_string())?;
+                    let text = perturb(&mut r2, &value, "");
+                    let msg2: CertificateMessage = serde_json::from_str(&text).map_err(|e| e.to_string())?;
+                    Ok((msg2.try_into().map_err(|e: anyhow::Error| e.to_string())?, text))
+                })();
+                let (holds, why, obs) = match &res {
+                    Ok((c2, _)) => {
+                        let after = rt.block_on(verifier.verify_certificate(c2)).is_ok();
+                        let h1 = cert.try_compute_hash().unwrap_or_default();
+                        let h2 = c2.try_compute_hash().unwrap_or_default();
+                        // a genuine certificate verifies; one whose hash field no longer matches its content does not;
+                        // whatever the outcome, it is the same on both sides of the wire
+                        let expected = if tamper == 0 { Some(true) } else if h1 != cert.hash { Some(false) } else { None };
+                        let ok = expected.map(|e| e == before).unwrap_or(true) && after == before && h2 == h1 && c2.hash == cert.hash && c2.signed_message == cert.signed_message;
+                        (
+                            ok,
+                            if ok { None } else { Some(format!("{}: verification before={} after={} (expected {:?}), recomputed hash {} -> {}", what, before, after, expected, h1, h2)) },
+                            coq::ol(&[coq::ob(before), coq::ob(after), coq::ob(h2 == h1)]),
+                        )
+                    }
+                    Err(e) => (false, Some(format!("round trip failed: {}", e)), coq::ol(&[coq::ob(before)])),
+                };
+                sink.push(Case {
+                    id,
+                    kind: format!("wire-roundtrip-verify/{}/{}", if cert.is_genesis() { "genesis" } else { "standard" }, if tamper == 0 { "genuine" } else { "tampered" }),
+                    desc: serde_json::json!({"hash": cert.hash, "epoch": *cert.epoch, "what": what, "json": res.as_ref().map(|x| x.1.clone()).unwrap_or_default()}),
+                    model: None,
+                    impl_obs: obs,
+                    holds: Some(holds),
+                    why,
+                    known: None,
+                    nontrivial: true,
+                    key: format!("{}/{}", cert.hash, tamper),
+                });
+            }
         }
     }
     sink.finish();
